@@ -467,6 +467,23 @@ func TestReuse(t *testing.T) {
 		if rapid.Bool().Draw(t, "bpal") {
 			c.BPalette = gen.Palette(t, "bpal", true)
 		}
+		if rapid.IntRange(0, 9).Draw(t, "bzero") == 0 {
+			// B's metadata is the zero value of its types (a viewBox that is one point, 64
+			// transparent entries): legal, and what a never-Reset object holds in its fields
+			c.BViewBox = [4]ops.F32{}
+			c.BPalette = ops.Palette{}
+			labels = append(labels, "B-metadata-is-the-zero-value")
+			if rapid.Bool().Draw(t, "bzero.noreset") {
+				// ... after a history without any Reset
+				var a []ops.Op
+				for _, o := range c.AOps {
+					if o.K != ops.Reset {
+						a = append(a, o)
+					}
+				}
+				c.AOps = a
+			}
+		}
 		c.BOps, c.BHi = genB(t)
 		switch rapid.IntRange(0, 11).Draw(t, "bsmall") {
 		case 0: // a graphic that is its metadata and nothing else
